@@ -56,6 +56,14 @@
                            no longer current) leaves [abs] unchanged.
      C04_clear_kt      [clear_kt kt] (the continuation is "return from Clear")
                        identifies the resizes that are Clears.
+     C04_writer_atomic (proofs/X_atomic.v) every reachable state, every writer standing
+                       before its linearization store on the CURRENT table: the abstract
+                       map holds for its key exactly the value the writer found under the
+                       lock (or nothing, if it found nothing), the update it is about to
+                       publish is the user function applied to THAT value, and the store
+                       changes the abstract map by exactly that update.  This is the
+                       per-call content of linearizability for writers (and of C05's
+                       "atomic per key").
    NOT a closed theorem: the final composition into "every history is
    linearizable": readers linearize at a moment inside their interval (C16 gives
    what they do, C04_vis_step what they can see), and a writer that passed its
@@ -66,7 +74,7 @@
    with colliding hashers and tables at the grow / shrink thresholds and checks
    every history for linearizability (porcupine). *)
 From CacheV Require Import Base SpecMap TableModel XMachine TabExec Exec XExec.
-From CacheV.proofs Require Import C11_lists C11_table C11_idx X_basic X_inv X_c13 X_inst X_own X_chain X_c04 X_lin X_resize X_swar.
+From CacheV.proofs Require Import C11_lists C11_table C11_idx X_basic X_inv X_c13 X_inst X_own X_chain X_c04 X_lin X_resize X_swar X_atomic.
 From Coq Require Import NArith.
 Local Open Scope nat_scope.
 
@@ -158,6 +166,18 @@ Theorem C04_clear_kt :
 Proof. exact @clear_kt_proof. Qed.
 Print Assumptions C04_clear_kt.
 
+Theorem C04_writer_atomic :
+  forall (K V : Type) (eqd : forall a b : K, {a = b} + {a <> b}) hash idx tag nslots seeds g sh probe nstripes minlen grow_only,
+    xhyps4 idx nstripes minlen nslots probe -> forall len0 todo sched t k nw s' ls, (0 < len0)%nat ->
+    let s := fst (@xrun K V eqd hash idx tag nslots seeds g sh probe nstripes minlen grow_only (xinit nslots seeds nstripes len0 todo) sched) in
+    lin_effect (g_pc s t) (g_cur s) = Some (k, nw) ->
+    @xstep K V eqd hash idx tag nslots seeds g sh probe nstripes minlen grow_only s t = Some (s', ls) ->
+    exists cx old, cx_k cx = k /\ abs_is hash idx nslots nstripes s k old /\ cx_f cx old = nw
+                   /\ (forall k' v, X_resize.abs hash idx nslots nstripes s' k' v
+                                    <-> upd_rel (X_resize.abs hash idx nslots nstripes s) (Some (k, nw)) k' v).
+Proof. exact @writer_atomic_proof. Qed.
+Print Assumptions C04_writer_atomic.
+
 Theorem C04_instance :
   forall hint, xhyps4 idx_mapof nstripes_x (minlen_of_hint true hint) (Z.to_nat Params.entriesPerMapOfBucket) probe_x.
 Proof. exact x_instance_hyps4. Qed.
@@ -182,6 +202,6 @@ Definition ex_run04 : @xstate nat nat :=
              (xinit 2 (fun _ => 0%N) (fun _ => 1) 1 (fun t => if Nat.eqb t 0 then [XCompute 7 (fun _ => Some 1) false false false] else [XLoad 7]))
              [0; 0; 0; 0; 0; 0; 1; 1]).
 Example C04_nonvacuous :
-  lin_effect (g_pc ex_run04 0) 0 = Some (7, Some 1) /\ (exists k lc h bi, g_pc ex_run04 1 = PL_Meta k lc 0 h bi).
-Proof. split; [vm_compute; reflexivity | do 4 eexists; vm_compute; reflexivity]. Qed.
+  lin_effect (g_pc ex_run04 0) 0 = Some (7, Some 1) /\ g_cur ex_run04 = 0 /\ (exists k lc h bi, g_pc ex_run04 1 = PL_Meta k lc 0 h bi).
+Proof. split; [vm_compute; reflexivity | split; [vm_compute; reflexivity | do 4 eexists; vm_compute; reflexivity]]. Qed.
 Print Assumptions C04_nonvacuous.
